@@ -74,20 +74,24 @@ static void fds_cases(vt::Rng& r, bool quick, int shard, int nshards) {
     }
 }
 
-static string gen_text(vt::Rng& r) {
+static string gen_text(vt::Rng& r, int index = -1) {
   // grammar-generated parser input
   static const vector<string> atoms = {"00", "7F", "ff", "A", "b", " ", "\n", "\t", "?", "$", "\"abc\"", "\"a\\nb\\\"c\\\\\"", "\"\"", "'xy'", "'\\n\\'q'",
       "#1 ", "#255 ", "#0x1F ", "#-1 ", "##513 ", "##0xBEEF ", "###16909060 ", "###-2 ", "####72623859790382856 ", "####0x0102030405060708 ",
       "####-1 ", "#010 ", "%1.5 ", "%-2 ", "%%0.25 ", "%%1024 ", "%0 ", "// comment 12\n", "/* block 34 */", "/*/", "/**/", "/* a\n b */",
-      "<file>", "zz", ",", "0x", "\"unterminated", "'\xC3\xA9'", "\"\xFF\x80\"", "#", "%", "##", "%%", "/", "*", "\\", "####18446744073709551615 "};
+      "<file>", "zz", ",", "0x", "\"unterminated", "'\xC3\xA9'", "\"\xFF\x80\"", "#", "%", "##", "%%", "/", "*", "\\", "####18446744073709551615 ",
+      "\"\\r\\t\\'q\"", "'\\r\\t\\\\z'", "$'ab'$", "\"x\\\"", "'y\\'"};
   string s;
+  // the first texts contain every atom once (alone, and between two others), whatever the seed
+  if (index >= 0 && index < (int)atoms.size()) return atoms[index];
+  if (index >= 0 && index < 2 * (int)atoms.size()) return "41 " + atoms[index - atoms.size()] + " 42";
   for (int n = (int)r.range(0, 12); n > 0; n--) s += atoms[r.below(atoms.size())];
   return s;
 }
 static void pds_cases(vt::Rng& r, bool quick, int shard, int nshards) {
   vector<string> texts;
   for (int i = 0; i < (quick ? 600 : 8000); i++) {
-    string t = gen_text(r);
+    string t = gen_text(r, i);
     texts.push_back(t);
     if (!t.empty() && r.chance(60)) {  // single edits
       string m = t;
@@ -161,7 +165,7 @@ static vector<pair<const char*, size_t>> split(const string& d, vt::Rng& r, int 
 }
 static void dump_cases(vt::Rng& r, bool quick, int shard, int nshards) {
   vector<uint64_t> starts = {0, 1, 5, 15, 16, 0xF8, 0xFFF8, 0xFFFFFFF8ULL, 0xFFFFFFFFFFFFF000ULL, 0xFFFFFFFFFFFFEFF3ULL, 0x100000000ULL - 3, 0x123456789AULL};
-  vector<uint64_t> flagsets = {0, 2, 0x40 | 2, 0x20, 0x20 | 2, 0x100, 0x200 | 2, 0x400, 0x800 | 2 | 0x20, 4, 8 | 2, 4 | 8 | 0x40, 0x1000 | 4, 0x2000 | 8, 0x10 | 4};
+  vector<uint64_t> flagsets = {0, 2, 0x40 | 2, 0x20, 0x20 | 2, 0x100, 0x200 | 2, 0x400, 0x800 | 2 | 0x20, 4, 8 | 2, 4 | 8 | 0x40, 0x1000 | 4, 0x2000 | 8, 0x10 | 4, 0x2000 | 4, 0x1000 | 8, 0x10 | 8, 0x10 | 4 | 8 | 2};
   int n = quick ? 260 : 4000;
   for (int i = 0; i < n; i++) {
     if (i % nshards != shard) {
